@@ -1,6 +1,7 @@
 package checks
 
 import (
+	"strings"
 	"encoding/hex"
 	"encoding/json"
 	"strconv"
@@ -67,6 +68,13 @@ func init() {
 	registerReplay("C05", func(raw json.RawMessage) ([]Discrepancy, error) {
 		var dc c05DecCase
 		if err := json.Unmarshal(raw, &dc); err == nil && dc.Req.Name != nil {
+			if refmodel.MultiKey(dc.Req.lname()) {
+				ds := c06DecodeExec(&dc.Req)
+				for i := range ds {
+					ds[i].Sig = "C05/multikey-" + strings.TrimPrefix(ds[i].Sig, "C06/")
+				}
+				return ds, nil
+			}
 			return c05DecodeExec(&dc.Req), nil
 		}
 		var c c05Case
